@@ -19,6 +19,7 @@ from harness.svc import ACTIVE, REQUESTED, S
 from vizier._src.service import study_pb2
 from vizier._src.service import vizier_service_pb2 as vs
 
+UNBLOCK = ['sqlite3.connect', 'sqlite3.connect/handle']
 ASSUMPTIONS = [
     'interleavings with ONE preemption of A at datastore-operation granularity (B runs to completion or until it blocks); '
     '3-party cycles and multiple preemptions are outside the claim',
@@ -141,7 +142,8 @@ class _Proxy:
 
 
 def _fresh():
-  sv = svc.new_servicer(pythia=svc.StubPythia(stateful=True))   # algorithm state lives in study metadata (as GRID_SEARCH)
+  sv = svc.new_servicer(pythia=svc.StubPythia(stateful=True),      # algorithm state lives in study metadata (as GRID_SEARCH)
+                        database_url='sqlite:///:memory:' if os.environ.get('VERIF_C04_SQL') else None)
   svc.add_study(sv, state=1)
   sv.datastore.create_trial(svc.make_trial(1, ACTIVE, client='w', n_meas=1))
   sv.datastore.create_trial(svc.make_trial(2, REQUESTED))
